@@ -10,6 +10,7 @@ import (
 	_ "verif/c09"
 	_ "verif/c10"
 	_ "verif/c11"
+	_ "verif/c12"
 	_ "verif/c14"
 	_ "verif/c15"
 )
